@@ -5091,10 +5091,14 @@ func (l *Lowerer) lowerLocalConst(decl *parser.ConstDecl, target *[]ir.Statement
 	var explicitType ir.TypeHandle
 	hasExplicitType := false
 	if decl.Type != nil {
-		if th, typeErr := l.resolveType(decl.Type); typeErr == nil {
-			explicitType = th
-			hasExplicitType = true
+		th, typeErr := l.resolveType(decl.Type)
+		if typeErr != nil {
+			// An unresolvable annotation (undeclared type, zero-sized array, ...)
+			// is an error, not "no annotation".
+			return fmt.Errorf("'%s' type: %w", decl.Name, typeErr)
 		}
+		explicitType = th
+		hasExplicitType = true
 	}
 
 	// For abstract local const declarations (no explicit type, abstract init),
